@@ -569,6 +569,32 @@ pub struct Loaded {
     pub probe_start_unit: usize,
 }
 
+/// What the library's own decoder makes of a frame, as an announcement (0 if it is not a
+/// start frame or is rejected). The bound A of C19 takes the maximum of this and the
+/// reference reading, so that it stays an upper bound whatever the decoder tolerates
+/// (the COBS crate, for one, skips leading zero bytes of a body).
+fn sut_announce_usart(body: &[u8]) -> u32 {
+    let b = body.to_vec();
+    match sut(move || Frame::from_usart_frame(b)) {
+        Ok(Ok(f)) if f.start_frame_flag => match f.frame_id {
+            FrameId::LastFrameId(i) => i as u32 + 1,
+            FrameId::CurrentFrameId(_) => 0,
+        },
+        _ => 0,
+    }
+}
+
+fn sut_announce_can(f: &bxcan::Frame) -> u32 {
+    let c = f.clone();
+    match sut(move || Frame::from_bxcan_frame(c)) {
+        Ok(Ok(f)) if f.start_frame_flag => match f.frame_id {
+            FrameId::LastFrameId(i) => i as u32 + 1,
+            FrameId::CurrentFrameId(_) => 0,
+        },
+        _ => 0,
+    }
+}
+
 pub fn load(sim: &Sim, wire: &WireRef, items: &[Item]) -> Loaded {
     let mut w = wire.borrow_mut();
     let mut l = Loaded {
@@ -593,21 +619,24 @@ pub fn load(sim: &Sim, wire: &WireRef, items: &[Item]) -> Loaded {
                 w.bytes.extend_from_slice(b);
                 l.frame_tags.push(it.tag);
                 l.frame_is_frame.push(true);
-                l.frame_announce.push(announce_usart_body(b));
+                l.frame_announce.push(announce_usart_body(b).max(sut_announce_usart(b)));
             }
             Unit::Can(u) => {
                 w.cframes.push(u.clone());
                 l.frame_tags.push(it.tag);
                 l.frame_is_frame.push(matches!(u, CanUnit::Frame(_)));
                 l.frame_announce.push(match u {
-                    CanUnit::Frame(f) => announce_can(f),
+                    CanUnit::Frame(f) => announce_can(f).max(sut_announce_can(f)),
                     CanUnit::Overrun => 0,
                 });
             }
         }
     }
     drop(w);
-    if sim.tracing() {
+    if sim.tracing() && items.len() > 3000 {
+        sim.note(|| format!("(stream of {} items: too long to list)", items.len()));
+    }
+    if sim.tracing() && items.len() <= 3000 {
         for (i, it) in items.iter().enumerate() {
             let s = match &it.unit {
                 Unit::Noise(n) => format!("noise {}", hex(n)),
